@@ -4,10 +4,13 @@ from core import Case
 
 PROP = 'C02'
 COQ_FILES = ['Extract/C02.v', 'Proofs/SignPlaceSeq.v', 'Proofs/SignPlaceTx.v', 'Proofs/TamperDigest.v',
-             'Proofs/TamperDigestWitness.v', 'Proofs/SignPlaceHashType.v', 'Properties/C02.v']
+             'Proofs/TamperDigestWitness.v', 'Proofs/SignPlaceHashType.v', 'Proofs/VerifyThreshold.v',
+             'Proofs/VerifyObject.v', 'Properties/C02.v']
 DRIVER = 'c02'
 IMPL = 'harness/impl/c02_impl.py'
 ALLOWED_AXIOMS = []
+# when the proof side breaks (e.g. the source tie of Gen/GenC02.v) the search is widened with this many thorough-tier cases
+ESCALATE_CAP = 1500
 ASSUMPTIONS = [
     'theorems are about coq/Model/VerifyInput.v and coq/Model/SignPlace.v (lib_* mirrors Input.verify, '
     'Transaction.verify, Transaction.sign of bitcoinlib/transactions.py) and hold for an ARBITRARY signature '
@@ -48,6 +51,26 @@ ASSUMPTIONS = [
     'signatures read from the bytes by an own parser) for the byte EACH signature carries.  Digest ids are those of '
     'SIGHASH_ALL: no field is changed after signatures for a type that commits to less are in place.  Bare multisig '
     'inputs cannot be serialized with signatures through the API (update_scripts has no branch) and are not generated',
+    'one attribute written by hand (ops A / AW / AX; coq/Proofs/VerifyObject.v): the oracle judges the BYTES - verify() of '
+    'the object must equal the verdict of an own consensus-style verifier (harness/props/c01.py verify_input: structure of '
+    'scriptSig / witness, exactly m signatures, CHECKMULTISIG order, digests per hash-type byte) on what raw() of that '
+    'object returns at that moment, against the spent outputs as the scenario describes them (kind, keys, m; the amount '
+    'is what Input.value says: no serialization carries it).  Strict for every attribute of Transaction / Input / Output '
+    'in the frozen list except (a) the verification context Input.hash_type, sigs_required, keys, signatures, '
+    'redeemscript, locking_script and the derived scripts Input.unlocking_script, witnesses, which only update_scripts() '
+    'brings in line (proposed known class object_bytes_out_of_sync; generated only while recorded) and (b) the kind '
+    'switches Input.script_type / witness_type, Transaction.witness_type and the lists Transaction.inputs / outputs '
+    '(not written).  Attributes of Signature and Key objects are not written.  The source tie (translator/gen_c02.py -> '
+    'coq/Gen/GenC02.v) pins which attribute names raw / signature_segwit / signature / signature_hash / verify / '
+    'Input.verify read and write',
+    'threshold on the parse path (request thr; coq/Proofs/VerifyThreshold.v): gen_threshold is the translation of the '
+    'statements of Input.update_scripts that assign sigs_required; the theorems cover every script whose first item is '
+    'the number m: OP_m for m <= 16 on the working tree, the pushed number 01 m for 17 <= m <= 127 only for the '
+    'repaired reading (proposed fix C02-7 / known class threshold_above_16_pushed; m >= 17 generated only while recorded).  '
+    'Script.parse (bitcoinlib/scripts.py) finds keys and signatures; only its result for the legacy path (n <= 15) is '
+    'modelled.  Multisig scripts the LIBRARY builds for m or n above 16 carry number + 80 as an opcode byte (0x61 .. = '
+    'OP_NOP, OP_VER, OP_IF, OP_NOTIF), which no consensus verifier reads as a number (Example '
+    'lib_ms_script_above_16_refuted): outside standard inputs, not generated',
 ]
 RULE = ('exhaustive m-of-n / signer subsets / permutations / call splits for small n on every standard input type, '
         'every single-field tampering and signature-list edit at every position before and after raw()/parse, '
@@ -56,6 +79,13 @@ RULE = ('exhaustive m-of-n / signer subsets / permutations / call splits for sma
         'third-party signatures made by the harness over the consensus digest for 02/03/81/82/83/04 placed into every '
         'input kind, parse+verify must agree with consensus; '
         'seeded random op sequences (1-3 inputs, mixed types, duplicate and same-point keys, foreign signers); '
+        'every attribute of the signed Transaction / Input / Output objects written ALONE on a deep copy (both copies of '
+        'version and output index, every committed field, every other attribute) with verify() compared against the own '
+        'verdict on raw() of the copy, for every input kind and two mixed transactions; the same writes on the live object '
+        'before and after signing, then verify / parse; the same object-against-bytes observation at the end of every '
+        'tamper / re-sign history and every random history without third-party signatures; m-of-n inputs parsed from raw bytes (own writer and library-built, '
+        'signature list replaced in the bytes): every boundary m, n in {1, 2, 14, 15, 16, 17, 20} (P2SH n <= 15) quick / '
+        'all 1 <= m <= n <= 20 thorough, with m-1 / m / m+1 / one / duplicated / reordered / corrupted / foreign signatures; '
         'a case is non-trivial when it contains at least one verification verdict; distinct by request')
 
 MULTI = ('sh', 'wsh', 'shwsh')
@@ -128,6 +158,45 @@ class Scn:
             self.epoch[i] = self.ep_ids[i].setdefault(rel, len(self.ep_ids[i]))
         self.ops.append('T/%s/%d%s/%s' % (name, j, '+' if on else '-', ','.join(map(str, self.epoch))))
 
+    # ---- one attribute written by hand
+    def _recompute(self):
+        for i, (ty, _, _) in enumerate(self.inputs):
+            rel = frozenset(k for k in self.active if k[0] != 'inv' or (k[1] == i and ty in SEGWIT))
+            self.epoch[i] = self.ep_ids[i].setdefault(rel, len(self.ep_ids[i]))
+
+    def _epochs_if(self, key):
+        """digest ids the inputs have if the change `key` counts (a label for 'another digest'; whether the library's
+        digest sees the write is the model's business, whether the bytes change is read from the bytes)"""
+        out = []
+        for i, (ty, _, _) in enumerate(self.inputs):
+            rel = frozenset(k for k in (self.active | {key}) if k[0] != 'inv' or (k[1] == i and ty in SEGWIT))
+            out.append(self.ep_ids[i].setdefault(rel, len(self.ep_ids[i])))
+        return out
+
+    @staticmethod
+    def _key(obj, attr, tag):
+        cls, j = obj[0], (int(obj[1:]) if obj[0] != 't' else 0)
+        name = SERIALISED.get((cls, attr)) or SHADOW_OF.get((cls, attr)) or 'attr.%s.%s' % (cls, attr)
+        return (name, j, tag)
+
+    def probe(self, obj, attr, variant='auto'):
+        es = self._epochs_if(self._key(obj, attr, 'p%d' % len(self.ops)))
+        self.ops.append('A/%s/%s/%s/%s' % (obj, attr, variant, ','.join(map(str, es))))
+
+    def observe_both(self):
+        """verify() of the object against the bytes it would broadcast, as it stands (an attribute nothing reads is
+        written on the copy)"""
+        self.probe('t', 'status')
+
+    def write(self, obj, attr, variant='auto'):
+        key = self._key(obj, attr, 'w%d' % len(self.ops))
+        es = self._epochs_if(key)
+        self.ops.append('AW/%s/%s/%s/%s' % (obj, attr, variant, ','.join(map(str, es))))
+        if (obj[0], attr) in SERIALISED:
+            # a field of the transaction changed: signatures made before are for another digest
+            self.active.add(key)
+            self._recompute()
+
     def place(self, i, ht, keys):
         """input i carries third-party signatures by `keys` (key order) for hash type ht; nothing is claimed about later
         V / R steps of the generic kind (Input.hash_type of the live object stays SIGHASH_ALL)"""
@@ -147,6 +216,45 @@ class Scn:
         req = 'scn %s %s' % (';'.join('%s/%d/%s' % (ty, m, ','.join(ks)) for ty, m, ks in self.inputs),
                              ';'.join(self.ops) or '-')
         return Case(kind, req)
+
+
+# attributes of the three classes (frozen from the tree this check was written for; the adapter's AX op reports others).
+# Python name -> how it is written when no explicit variant is given: by the type the attribute has at that moment.
+T_ATTRS = ('block_hash', 'block_height', 'change', 'coinbase', 'confirmations', 'date', 'fee', 'fee_per_kb', 'flag', 'index',
+           'input_total', 'locktime', 'output_total', 'rawtx', 'replace_by_fee', 'size', 'status', 'txhash', 'txid',
+           'verified', 'version', 'version_int', 'vsize')
+I_ATTRS = ('address', 'address_obj', 'compressed', 'double_spend', 'encoding', 'index_n', 'key_path', 'locktime_cltv',
+           'locktime_csv', 'output_n', 'output_n_int', 'prev_txid', 'public_hash', 'script', 'sequence', 'sort', 'strict',
+           'valid', 'value')
+O_ATTRS = ('_address', '_address_obj', 'change', 'compressed', 'encoding', 'lock_script', 'output_n', 'public_hash',
+           'public_key', 'script', 'script_type', 'spending_index_n', 'spending_txid', 'spent', 'value', 'versionbyte',
+           'witness_type', 'witver')
+# what the object believes about the spent output / holds as signatures (read by verification only) and the scripts
+# update_scripts() derives from that (read by raw() only)
+CTX_ATTRS = ('hash_type', 'sigs_required', 'keys', 'signatures', 'redeemscript', 'locking_script', 'unlocking_script',
+             'witnesses')
+# labels only (which digest-id label a write gets): the attribute raw() is believed to serialize a field from / its second copy
+SERIALISED = {('t', 'version'): 'ver', ('t', 'locktime'): 'lock', ('i', 'prev_txid'): 'prev', ('i', 'output_n'): 'outn',
+              ('i', 'sequence'): 'seq', ('i', 'value'): 'inv', ('o', 'value'): 'outv', ('o', 'lock_script'): 'outs'}
+SHADOW_OF = {('t', 'version_int'): 'ver', ('i', 'output_n_int'): 'outn'}
+EXPLICIT = {('t', 'version'): ('flip', 'hex:00000002'), ('t', 'version_int'): ('add:1', 'set:2'), ('t', 'locktime'): ('add:1',),
+            ('i', 'prev_txid'): ('flip',), ('i', 'output_n'): ('flip', 'hex:00000007'), ('i', 'output_n_int'): ('add:1',),
+            ('i', 'sequence'): ('add:-1', 'set:0'), ('i', 'value'): ('add:1', 'add:-1'), ('o', 'value'): ('add:1', 'add:-1'),
+            ('o', 'lock_script'): ('flip',)}
+
+
+def variants_of(cls, attr):
+    return EXPLICIT.get((cls, attr), ('auto',))
+
+
+def known_status(cid):
+    """'known' / 'fixed' / None: how a finding is recorded (known_findings.json, VERIF_EXTRA_KNOWN)"""
+    from core import load_known
+    st = None
+    for e in load_known(PROP):
+        if e.get('id') == cid:
+            st = e.get('status')
+    return st
 
 
 def toks(n, start=0):
@@ -190,6 +298,12 @@ CORPUS = [
     'scn wsh/2/0c,1c,2c P/0/131/0c,2c;R+;C+/-',
     'scn wsh/2/0c,1c,2c S/*/n/f/0c,2c;R+;Q/0.1.3;C/0.0.3',                    # input_level_hash_type (known)
     'scn wpkh/1/0c S/*/n/f/0c;C/0.0.0',
+    # the serialized version of a signed transaction written alone (both copies of the version): seeded change C02-p
+    'scn wpkh/1/0c S/*/n/f/0c;V+;A/t/version/hex:00000002/1;A/t/version_int/set:2/2;AW/t/version/hex:00000002/3;V-;R-',
+    'scn shwsh/2/0c,1c,2c AW/t/version_int/set:2/1;S/*/n/f/0c,2c;V+;R+;A/t/version/flip/2',
+    'thr own wsh 16 16 0',                                                     # seeded change C02-r
+    'thr lib shwsh 16 16 0',
+    'thr own wsh 16 16 0.1.2.3.4.5.6.7.8.9.10.11.12.13.14.15',
 ]
 def gen_cases(rng, tier):
     big = tier == 'thorough'
@@ -333,11 +447,13 @@ def gen_cases(rng, tier):
                     for i, (ty, m, ks) in enumerate(shape):
                         s.sign(ks[-m:], target=i, replace=True)
                     s.verify()
+                    s.observe_both()
                     s.tamper(name, j, False)
                     s.verify()
                 else:
                     s.tamper(name, j, False)
                     s.verify()
+                s.observe_both()
                 cs.append(s.case('tamper_' + name))
     # --- 4. signature-list edits at every position (removed / duplicated / swapped / replaced / corrupted)
     for ty in MULTI + SINGLE:
@@ -441,6 +557,133 @@ def gen_cases(rng, tier):
         cs.append(s.case('large_n'))
     for _ in range(12000 if big else 600):
         cs.append(random_scenario(rng, big))
+    # --- 6. ONE attribute of the signed object written by hand: verify() of the object against the bytes it would broadcast
+    shapes_w = [[(ty, 2, toks(3))] for ty in MULTI] + [[(ty, 1, ['0c'])] for ty in SINGLE_ALL] + \
+               [[('sh', 2, toks(2)), ('wpkh', 1, ['2c'])], [('wsh', 1, toks(2)), ('pkh', 1, ['2u']), ('shwsh', 2, toks(2, 3))]]
+    unsynced = known_status('object_bytes_out_of_sync') == 'known'
+    for shape in shapes_w:
+        def signed(partial=False):
+            s = Scn(shape)
+            for i, (ty, m, ks) in enumerate(shape):
+                s.sign(ks[:m - 1] if partial and m > 1 else ks[:m], target=i)
+            return s
+        objs = [('t', T_ATTRS)] + [('i%d' % i, I_ATTRS) for i in range(len(shape))] + [('o0', O_ATTRS), ('o1', O_ATTRS)]
+        for obj, attrs in objs:
+            s = signed()
+            s.verify()
+            for attr in attrs:
+                for v in variants_of(obj[0], attr):
+                    s.probe(obj, attr, v)
+            if obj == 't':
+                s.ops.append('AX')
+            cs.append(s.case('attr_probe'))
+        if len(shape) == 1 and shape[0][1] > 1:
+            s = signed(partial=True)          # one signature short: nothing verifies, whatever is written
+            for (cls, attr), vs in EXPLICIT.items():
+                s.probe({'t': 't', 'i': 'i0', 'o': 'o0'}[cls], attr, vs[0])
+            cs.append(s.case('attr_probe'))
+        if unsynced:
+            for i, (ty, m, ks) in enumerate(shape):
+                n, obj = len(ks), 'i%d' % i
+                s = signed()
+                for v in ('set:2', 'set:3', 'set:129', 'set:0'):
+                    s.probe(obj, 'hash_type', v)
+                for v in (m + 1, m - 1, 0, -1):
+                    if v != m:
+                        s.probe(obj, 'sigs_required', 'set:%d' % v)
+                idx = list(range(n))
+                for sel in (idx[:-1], idx[::-1], idx[1:], []):
+                    if sel != idx:
+                        s.probe(obj, 'keys', 'sel:' + ('.'.join(map(str, sel)) or '-'))
+                sg = list(range(m))
+                for sel in (sg[:-1], sg[::-1], sg + sg[:1], sg[:1] * m, []):
+                    if sel != sg:
+                        s.probe(obj, 'signatures', 'sel:' + ('.'.join(map(str, sel)) or '-'))
+                for attr in ('redeemscript', 'locking_script', 'unlocking_script'):
+                    s.probe(obj, attr, 'flip')
+                if ty in LEGACY:
+                    s.probe(obj, 'unlocking_script', 'empty')
+                if ty in SEGWIT:
+                    s.probe(obj, 'witnesses', 'sel:0')
+                    s.probe(obj, 'witnesses', 'sel:-')
+                cs.append(s.case('attr_probe_context'))
+    # the same writes on the LIVE object: before signing (sign, verify, parse afterwards) and after
+    live = [('t', 'version', 'flip'), ('t', 'version', 'hex:00000002'), ('t', 'version_int', 'add:1'), ('t', 'version_int', 'set:2'),
+            ('t', 'locktime', 'add:1'), ('i0', 'prev_txid', 'flip'), ('i0', 'output_n', 'flip'), ('i0', 'output_n_int', 'add:1'),
+            ('i0', 'sequence', 'add:-1'), ('i0', 'value', 'add:1'), ('o0', 'value', 'add:1'), ('o1', 'lock_script', 'flip'),
+            ('t', 'txid', 'auto'), ('t', 'rawtx', 'auto'), ('t', 'size', 'auto'), ('t', 'verified', 'auto'),
+            ('t', 'input_total', 'auto'), ('i0', 'valid', 'auto'), ('i0', 'index_n', 'auto'),
+            ('o0', 'public_hash', 'auto'), ('o0', 'script', 'auto')]
+    # (Input.public_hash, address, encoding, compressed, strict feed update_scripts(), which Transaction.sign calls: on the
+    #  live object they belong to the verification context; written on a copy, without update_scripts, they are inert)
+    for ty in SINGLE_ALL + MULTI:
+        m, keys = (2, toks(3)) if ty in MULTI else (1, ['0c'])
+        for obj, attr, v in live:
+            if big or (obj, attr) in (('t', 'version'), ('t', 'version_int'), ('i0', 'output_n_int'), ('i0', 'value')) \
+                    or rng.random() < 0.35:
+                s = Scn([(ty, m, keys)])
+                s.write(obj, attr, v)
+                s.sign(keys[:m])
+                s.verify()
+                s.probe('t', 'version', 'flip')
+                s.probe('t', 'version_int', 'add:1')
+                cs.append(s.case('attr_write_then_sign'))
+                s = Scn([(ty, m, keys)])
+                s.sign(keys[:m])
+                s.verify(both=False)
+                s.write(obj, attr, v)
+                s.verify()
+                s.sign(keys[:m], replace=True)          # all keys of the first call again
+                s.verify()
+                s.observe_both()
+                cs.append(s.case('attr_sign_then_write'))
+    # --- 7. thresholds on the PARSE path: m-of-n inputs read from raw bytes
+    cs.extend(gen_thr(rng, big))
+    return cs
+
+
+def thr_sels(m, n):
+    """serialized signature lists for an m-of-n input: (label, selection)"""
+    first = list(range(m))
+    out = [('first_m', first), ('last_m', list(range(n - m, n)))]
+    if m > 1:
+        out += [('m_minus_1', first[:-1]), ('one', [0]), ('one_last', [n - 1]), ('dup_one', [0] * m),
+                ('dup_tail', first[:-1] + first[-2:-1]), ('swapped', [1, 0] + first[2:]), ('reversed', first[::-1]),
+                ('corrupted', first[:-1] + ['x%d' % first[-1]]), ('foreign', first[:-1] + ['f'])]
+    else:
+        out += [('corrupted', ['x0']), ('foreign', ['f'])]
+    if n > m:
+        out += [('m_plus_1', list(range(m + 1))), ('spread', list(range(0, n, max(1, n // m)))[:m])]
+    seen, res = set(), []
+    for lab, sel in out:
+        k = tuple(sel)
+        if sel and k not in seen:
+            seen.add(k)
+            res.append((lab, '.'.join(map(str, sel))))
+    return res
+
+
+def gen_thr(rng, big):
+    cs = []
+    above = known_status('threshold_above_16_pushed') in ('known', 'fixed')
+    if big:
+        pairs_w = [(m, n) for n in range(1, 21) for m in range(1, n + 1)]
+        pairs_l = [(m, n) for n in range(1, 16) for m in range(1, n + 1)]
+    else:
+        pairs_w = [(1, 1), (1, 2), (2, 2), (2, 3), (3, 5), (14, 15), (15, 15), (1, 16), (15, 16), (16, 16),
+                   (1, 17), (15, 17), (16, 17), (1, 20), (15, 20), (16, 20), (17, 17), (17, 20), (18, 19), (20, 20)]
+        pairs_l = [(1, 1), (2, 3), (8, 15), (14, 15), (15, 15), (1, 15)]
+    for kind in ('wsh', 'shwsh', 'sh'):
+        for m, n in (pairs_l if kind == 'sh' else pairs_w):
+            if m > 16 and not above:
+                continue
+            sels = thr_sels(m, n)
+            if not big and (m, n) not in ((15, 15), (15, 16), (16, 16), (16, 17), (2, 3), (17, 20)):
+                sels = sels[:3] + rng.sample(sels[3:], min(3, len(sels) - 3))
+            for lab, sel in sels:
+                cs.append(Case('thr_own_' + lab, 'thr own %s %d %d %s' % (kind, m, n, sel)))
+                if n <= 16 and (big or lab in ('first_m', 'm_minus_1', 'one', 'dup_one', 'swapped')):
+                    cs.append(Case('thr_lib_' + lab, 'thr lib %s %d %d %s' % (kind, m, n, sel)))
     return cs
 
 
@@ -495,6 +738,8 @@ def random_scenario(rng, big):
             arg = rng.choice(pool) if kind == 'ins' else rng.randrange(1, 6) if kind == 'var' else None
             s.edit(i, kind, rng.randrange(6), arg)
     s.verify()
+    if not any(o[0] in 'PQC' for o in s.ops):
+        s.observe_both()
     return s.case('random_ops')
 
 
@@ -569,16 +814,18 @@ def _mixed(o, base, per):
     return False
 
 
-def prop_check(c, out, exempt_mixed=False, exempt_legacy_non_all=False):
+def prop_check(c, out, exempt_mixed=False, exempt_legacy_non_all=False, exempt_unsynced=False):
     """The statement, evaluated on the implementation's own answers: a verdict True (and Input.valid True) needs,
     for every input, at least m signatures each valid for a distinct listed key — valid = ECDSA (fastecdsa) over the
     CONSENSUS digest for the hash-type byte the signature carries, computed without the library; an honest history
     with >= m distinct listed signers on every input must verify (marks '+'/'-')."""
     if out.startswith('CRASH') or out == 'BADREQ':
         return 'unexpected answer %r' % out[:160]
+    if c.req.startswith('thr '):
+        return thr_check(c, out)
     inputs, ops = parse_req(c.req)
     bases = _base_hts(ops)
-    obs_ops = [(o, bases[j]) for j, o in enumerate(ops) if o[0] in 'SVRQC']
+    obs_ops = [(o, bases[j]) for j, o in enumerate(ops) if o[0] in 'SVRQC' or o.startswith('A/') or o == 'AX']
     obs = [] if out == '-' else out.split(' ')
     if len(obs) != len(obs_ops):
         return 'answer has %d observations for %d observing operations' % (len(obs), len(obs_ops))
@@ -586,6 +833,36 @@ def prop_check(c, out, exempt_mixed=False, exempt_legacy_non_all=False):
         if o[0] == 'S':
             if not (a in ('S0', 'S1', 'S2')):
                 return 'sign() ended with %s' % a
+            continue
+        if o == 'AX':
+            # attributes outside the frozen list: each was written alone on a copy
+            if not a.startswith('X'):
+                return 'attribute enumeration answered %s' % a[:80]
+            for item in ([] if a == 'X-' else a[1:].split(',')):
+                name, _, r = item.partition('=')
+                f3 = r.split('|')
+                if len(f3) == 3 and f3[0][1:] != f3[2]:
+                    return ('%s: attribute %s (not in the frozen list) written alone: verify() of the object says %s, the bytes '
+                            'raw() returns are %s' % ('SOUNDNESS' if f3[0][1:] == 'T' else 'COMPLETENESS', name, f3[0][1:], f3[2]))
+            continue
+        if o.startswith('A/'):
+            f = o.split('/')
+            if not a.startswith('B') or a.count('/') != 2:
+                return 'attribute write %s answered %s' % (o, a[:80])
+            lib, flags, rawv = a[1:].split('/')
+            what = '%s.%s (%s)' % (f[1], f[2], f[3])
+            if lib not in ('T', 'F'):
+                return 'verify() raised %s after %s was written' % (lib, what)
+            if rawv not in ('T', 'F'):
+                return 'raw() raised after %s was written' % what
+            if lib != rawv and not (exempt_unsynced and f[1][0] == 'i' and f[2] in CTX_ATTRS):
+                when = ('on the object as it stands after the history' if (f[1], f[2]) == ('t', 'status')
+                        else 'after %s alone was written on the object' % what)
+                if lib == 'T':
+                    return ('SOUNDNESS: %s, verify() is True but the bytes raw() returns do not pass an independent '
+                            'consensus-style verification' % when)
+                return ('COMPLETENESS: %s, the bytes raw() returns are a validly signed transaction (independent '
+                        'consensus-style verification) but verify() is False' % when)
             continue
         if not a.startswith('V') or a.count('/') != 2:
             return 'verification step %s answered %s' % (o, a[:80])
@@ -616,6 +893,35 @@ def prop_check(c, out, exempt_mixed=False, exempt_legacy_non_all=False):
                     'consensus digest (for the hash type they carry) but %s is False (matrix %s)' % (where, mat))
         if _mark(o) == '-' and verdict != 'F' and not mixed:
             return 'SOUNDNESS: %s is True on a history with fewer than m valid listed signatures (matrix %s)' % (where, mat)
+    return None
+
+
+def thr_check(c, out):
+    """an m-of-n input parsed from raw bytes: a True verdict needs m signatures valid for distinct listed keys (matrix =
+    ECDSA over the consensus digest, computed from the bytes without the library); the first-m / any m keys in key order
+    must verify; the parsed sigs_required is m"""
+    _, src, kind, m, n, sel = c.req.split(' ')
+    m, n = int(m), int(n)
+    if not out.startswith('V') or out.count('/') != 3:
+        return 'parse / verify of the raw transaction answered %s' % out[:80]
+    verdict, flag, mat, sr = out[1:].split('/')
+    if '?' in mat:
+        return 'oracle matrix not computable: %s' % out[:80]
+    rows = [] if mat == '-' else mat.split(',')
+    enough = max_matching(rows) >= m
+    what = '%s %d-of-%d parsed from raw bytes with the serialized signature list %s' % (kind, m, n, sel)
+    if verdict == 'T' and not enough:
+        return ('SOUNDNESS: %s: Transaction.parse(raw).verify() is True with fewer than %d signatures valid for distinct '
+                'listed keys (validity matrix %s, sigs_required after parse %s)' % (what, m, mat, sr))
+    if flag == 'T' and not enough:
+        return 'SOUNDNESS: %s: Input.valid is True with fewer than %d valid signatures (matrix %s)' % (what, m, mat)
+    toks_ = sel.split('.')
+    honest = len(toks_) == m and all(t.isdigit() for t in toks_) and \
+        all(int(a) < int(b) for a, b in zip(toks_, toks_[1:])) and int(toks_[-1]) < n
+    if honest and verdict != 'T':
+        return 'COMPLETENESS: %s (m listed keys, in key order): verify() is False (matrix %s, sigs_required %s)' % (what, mat, sr)
+    if sr != str(m):
+        return 'SOUNDNESS: %s: sigs_required after parse is %s, the script says %d' % (what, sr, m)
     return None
 
 
@@ -679,6 +985,19 @@ def _mixed_hash_types(c, io, mo):
     return prop_check(c, io) is not None and prop_check(c, io, exempt_mixed=True) is None
 
 
+def _unsynced(c, io, mo):
+    """the object's verification context (Input.hash_type, sigs_required, keys, signatures, redeemscript, locking_script)
+    and the scripts derived from it (Input.unlocking_script, witnesses) are brought in line by update_scripts() only:
+    written by hand, verify() speaks about the former and raw() writes the latter.  Exactly that: the only thing wrong
+    with the answers is a verify() / raw() disagreement at a step that wrote one of those attributes"""
+    return c.req.startswith('scn ') and prop_check(c, io) is not None and prop_check(c, io, exempt_unsynced=True) is None
+
+
+def _thr_above_16(c, io, mo):
+    """a threshold above 16 has no opcode; consensus pushes it as a number (01 m), update_scripts reads n_tag - 80 = -79"""
+    return c.req.startswith('thr ') and int(c.req.split(' ')[3]) >= 17 and prop_check(c, io) is not None
+
+
 # recorded under another property (C01): excused only while recorded there, see _legacy_non_all
 DOMAIN_CLASSES = ('legacy_non_all_hashtype',)
 KNOWN_CLASSES = {
@@ -688,6 +1007,10 @@ KNOWN_CLASSES = {
     'legacy_non_all_hashtype': _legacy_non_all,
     # a soundness class: excuses exactly the steps at which Input.hash_type cannot be every checked signature's hash type
     'input_level_hash_type': _mixed_hash_types,
+    # (proposed) the object and its bytes disagree after a hand-written context attribute / derived script
+    'object_bytes_out_of_sync': _unsynced,
+    # (proposed) pushed thresholds above 16 on the parse path
+    'threshold_above_16_pushed': _thr_above_16,
 }
 
 
